@@ -58,6 +58,9 @@ func TestMain(m *testing.M) {
 		if strings.Contains(a, "TestC04Par") {
 			prop = "C04"
 		}
+		if strings.Contains(a, "TestC11Conc") {
+			prop = "C11"
+		}
 	}
 	os.Exit(kit.Supervise(prop, childEnv))
 }
@@ -73,6 +76,9 @@ type Workload struct {
 	Histview  int       `json:"histview"`    // number of history views by a background actor
 	Deactiv   bool      `json:"deactivator"` // clients.DeactivateInactives runs in the background
 	Dup       bool      `json:"dup"`         // one raw peer sends every request twice, concurrently
+	Rush      bool      `json:"rush"`        // before the scripts: all clients attach one brand-new key at the same time
+	Watchers  int       `json:"watchers"`    // raw WatchDocument streams on document 0 that come and go while the scripts run
+	WatchGap  int       `json:"watchgap"`    // base life time of a watch stream (x 1ms, varied per loop)
 }
 
 // WStep is one step of a client script.
@@ -95,6 +101,9 @@ func genWorkload() *rapid.Generator[Workload] {
 			Histview:  rapid.IntRange(0, 6).Draw(t, "histview"),
 			Deactiv:   rapid.IntRange(0, 3).Draw(t, "deactivator") == 0,
 			Dup:       rapid.IntRange(0, 2).Draw(t, "dup") == 0,
+			Rush:      rapid.IntRange(0, 1).Draw(t, "rush") == 0,
+			Watchers:  max(0, rapid.IntRange(-3, 6).Draw(t, "watchers")),
+			WatchGap:  rapid.IntRange(0, 40).Draw(t, "watchgap"),
 		}
 		if rapid.IntRange(0, 2).Draw(t, "snap") > 0 {
 			w.Interval = int64(rapid.IntRange(1, 4).Draw(t, "interval"))
@@ -102,7 +111,7 @@ func genWorkload() *rapid.Generator[Workload] {
 		} else {
 			w.Interval, w.Threshold = 1000, 1000
 		}
-		pool := []string{"edit", "edit", "edit", "sync", "sync", "sync", "pushonly", "attach", "detach", "yield", "lag"}
+		pool := []string{"edit", "edit", "edit", "sync", "sync", "sync", "pushonly", "attach", "attach", "detach", "yield", "lag", "parsync", "parsync"}
 		for c := 0; c < w.Clients; c++ {
 			n := rapid.IntRange(4, kit.Pick(18, 30)).Draw(t, "len")
 			var sc []WStep
@@ -287,6 +296,34 @@ func (r *run) clientScript(p *peer, sc []WStep) *kit.Failure {
 			}
 			p.docs[st.D] = nil
 			r.count("detach")
+		case "parsync":
+			// the client syncs all its attached documents at the same time
+			// (one request per document in flight; e.g. several realtime
+			// attachments of one client)
+			var pw sync.WaitGroup
+			errs := make([]error, len(p.docs))
+			n := 0
+			for di, dd := range p.docs {
+				if dd == nil {
+					continue
+				}
+				n++
+				pw.Add(1)
+				go func() {
+					defer pw.Done()
+					kk := r.keys[di]
+					errs[di] = r.timed(string(kk), func() error { return p.c.Sync(ctx, client.WithKey(kk)) })
+				}()
+			}
+			pw.Wait()
+			for di, err := range errs {
+				if err != nil {
+					return kit.Failf("SYNCFAIL", "c%d doc %d (parallel sync of the client's %d documents): %v", p.idx, di, n, err)
+				}
+			}
+			if n >= 2 {
+				r.count("parallel_sync_of_one_client")
+			}
 		case "yield":
 			runtime.Gosched()
 		case "lag":
@@ -348,9 +385,15 @@ func execute(w Workload) (fail *kit.Failure, ev map[string]int, hist []string) {
 	}
 	s.WaitIdle()
 
+	if w.Rush {
+		if f := r.rush(proj); f != nil {
+			return f, r.ev, r.log
+		}
+	}
+
 	// parallel phase
 	var wg sync.WaitGroup
-	fails := make(chan *kit.Failure, w.Clients+8)
+	fails := make(chan *kit.Failure, w.Clients+16)
 	start := make(chan struct{})
 	stop := make(chan struct{})
 	for i, p := range r.peers {
@@ -420,6 +463,17 @@ func execute(w Workload) (fail *kit.Failure, ev map[string]int, hist []string) {
 			}
 		}()
 	}
+	scriptsDone := make(chan struct{})
+	for wi := 0; wi < w.Watchers; wi++ {
+		bg.Add(1)
+		go func() {
+			defer bg.Done()
+			<-start
+			if f := r.watcher(proj, r.keys[0], wi, w.WatchGap, scriptsDone); f != nil {
+				fails <- f
+			}
+		}()
+	}
 	if w.Deactiv {
 		bg.Add(1)
 		go func() {
@@ -435,7 +489,7 @@ func execute(w Workload) (fail *kit.Failure, ev map[string]int, hist []string) {
 	}
 	close(start)
 	done := make(chan struct{})
-	go func() { wg.Wait(); bg.Wait(); close(done) }()
+	go func() { wg.Wait(); close(scriptsDone); bg.Wait(); close(done) }()
 	select {
 	case <-done:
 	case <-gotime.After(60 * gotime.Second):
@@ -516,6 +570,119 @@ func execute(w Workload) (fail *kit.Failure, ev map[string]int, hist []string) {
 			baseGoroutines, n, abbreviate(goroutineDump(), 5000)), r.ev, r.log
 	}
 	return nil, r.ev, r.log
+}
+
+// watcher is a raw peer that opens WatchDocument streams on the document and
+// leaves them again (cancelled request) after a short, varying time, until the
+// client scripts are done. Half of the streams are read, half are left unread.
+func (r *run) watcher(proj *types.Project, k key.Key, wi, gap int, done <-chan struct{}) *kit.Failure {
+	ctx := context.Background()
+	cli := v1connect.NewYorkieServiceClient(http.DefaultClient, "http://"+r.s.Addr,
+		connect.WithInterceptors(client.NewAuthInterceptor(proj.PublicKey, "")))
+	act, err := cli.ActivateClient(ctx, connect.NewRequest(&api.ActivateClientRequest{ClientKey: world.FreshDocKey("watch")}))
+	if err != nil {
+		return kit.Failf("HARNESS", "watcher activate: %v", err)
+	}
+	cid := act.Msg.ClientId
+	defer func() {
+		_, _ = cli.DeactivateClient(ctx, connect.NewRequest(&api.DeactivateClientRequest{ClientId: cid, Synchronous: true}))
+	}()
+	di, err := documents.FindDocInfoByKey(ctx, r.s.BE, proj, k)
+	if err != nil {
+		return kit.Failf("HARNESS", "watcher docinfo: %v", err)
+	}
+	for loop := 0; loop < 200; loop++ {
+		select {
+		case <-done:
+			return nil
+		default:
+		}
+		wctx, cancel := context.WithCancel(ctx)
+		st, err := cli.WatchDocument(wctx, connect.NewRequest(&api.WatchDocumentRequest{ClientId: cid, DocumentId: di.ID.String()}))
+		if err != nil {
+			cancel()
+			return kit.Failf("WATCHFAIL", "watcher %d: WatchDocument of an active client failed: %v", wi, err)
+		}
+		fin := make(chan struct{})
+		read := (loop+wi)%2 == 0
+		go func() {
+			defer close(fin)
+			if !read {
+				<-wctx.Done()
+				return
+			}
+			for st.Receive() {
+				r.count("watch_event_received")
+			}
+		}()
+		gotime.Sleep(gotime.Duration((gap*(loop%4+1))%60)*gotime.Millisecond + gotime.Duration(loop%7)*150*gotime.Microsecond)
+		cancel()
+		<-fin
+		_ = st.Close()
+		r.count("watch_stream_opened_and_left")
+	}
+	return nil
+}
+
+// rush lets all clients attach one brand-new document key at the same time
+// (the first attach creates the document): they must all end up on ONE
+// document, i.e. see each other's edits.
+func (r *run) rush(proj *types.Project) *kit.Failure {
+	ctx := context.Background()
+	rk := key.Key(world.FreshDocKey("c16rush"))
+	docs := make([]*document.Document, len(r.peers))
+	errs := make([]error, len(r.peers))
+	gate := make(chan struct{})
+	var wg sync.WaitGroup
+	for i, p := range r.peers {
+		wg.Add(1)
+		go func() {
+			defer wg.Done()
+			d := document.New(rk)
+			docs[i] = d
+			<-gate
+			if errs[i] = p.c.Attach(ctx, d); errs[i] != nil {
+				return
+			}
+			if errs[i] = d.Update(func(root *yjson.Object, _ *presence.Presence) error {
+				root.SetInteger(fmt.Sprintf("r%d", i), i)
+				return nil
+			}); errs[i] != nil {
+				return
+			}
+			errs[i] = p.c.Sync(ctx, client.WithKey(rk))
+		}()
+	}
+	close(gate)
+	wg.Wait()
+	r.s.WaitIdle()
+	for i, err := range errs {
+		if err != nil {
+			return kit.Failf("ATTACHFAIL", "c%d: concurrent first attach of a new key: %v", i, err)
+		}
+	}
+	for round := 0; round < 2; round++ {
+		for i, p := range r.peers {
+			if err := p.c.Sync(ctx, client.WithKey(rk)); err != nil {
+				return kit.Failf("SYNCFAIL", "c%d after the concurrent first attach: %v", i, err)
+			}
+			r.s.WaitIdle()
+		}
+	}
+	for i := 1; i < len(docs); i++ {
+		if a, b := docs[0].Marshal(), docs[i].Marshal(); a != b {
+			return kit.Failf("DELIVERY-SPLIT-DOCUMENT", "%d clients attached the new key %s at the same time; after two quiescent rounds c0 and c%d do not see each other's edits (the key resolved to different documents):\n%s\n%s",
+				len(docs), rk, i, a, b)
+		}
+	}
+	for i, p := range r.peers {
+		if err := p.c.Detach(ctx, docs[i]); err != nil {
+			return kit.Failf("DETACHFAIL", "c%d: %v", i, err)
+		}
+	}
+	r.s.WaitIdle()
+	r.count("concurrent_first_attach")
+	return nil
 }
 
 // dupPeer is a raw RPC peer that sends every PushPull request TWICE at the
@@ -775,6 +942,7 @@ func TestC04Par(t *testing.T) {
 
 func TestReplay(t *testing.T) {
 	kit.Replay(t, map[string]kit.Replayer{
+		"lifecase": replayLife,
 		"workload": func(raw json.RawMessage) *kit.Failure {
 			var w Workload
 			if err := json.Unmarshal(raw, &w); err != nil {
